@@ -216,6 +216,10 @@ def tilePositions (tr tc R C : Int) (g : Geo) : Except ErrKind (List ((Int × In
     .ok ((iota nRow).flatMap (fun i => (iota nCol).map (fun j =>
       ((j * tc + 1, i * tr + 1), pixToRef g (j * tc) (i * tr)))))
 
+/-- the channel numbers `iter_tiled_full_frame_data` iterates over for an image with `n` optical paths / a non-LABELMAP
+segmentation with `n` segments: `1 .. n` -/
+def channelNumbers (n : Int) : List (Option Int) := (iota n).map (fun k => some (k + 1))
+
 /-- `spatial.iter_tiled_full_frame_data`: (channel, focal plane, column position, row position, x, y, z)
 for every frame of a TILED_FULL image, channels outermost, then focal planes, then tiles row-major.
 `sbs` = SpacingBetweenSlices (1 when absent); `g.oz` = z offset of the total pixel matrix origin (0 when absent). -/
